@@ -141,6 +141,56 @@ def bfs(parents):
     return dict(states=set(seen), transitions=transitions, violations=viol, edges=edges)
 
 
+def grow_histories(parents, depth):
+    """Request sequences interleaved with ONE 'grow' event (a new operator is added to the pipeline, as an
+    incremental DAG builder would do): the operators that existed before keep their states and counts."""
+    n = len(parents)
+    reqs = [(i, t) for i in range(n) for t in STATES]
+    viol = []
+    execs = 0
+
+    def rec(hist):
+        nonlocal execs
+        # grow now, then check
+        p, ops = replay_history(parents, hist)
+        before = key_of(p, ops)
+        for gpar in ([], [0]):
+            p, ops = replay_history(parents, hist)
+            try:
+                p.new_operator([ops[j] for j in gpar] or None)
+            except Exception as e:
+                continue
+            execs += 1
+            try:
+                st = p.runtime_status()
+                after_states = tuple(st.operator_states[o].value for o in ops)
+                after_counts = tuple(st.state_counts[OS[s]] for s in STATES)
+            except Exception as e:
+                viol.append(Violation("lifecycle", "grow-breaks-status", f"after adding an operator: {type(e).__name__}: {e}", dict(parents=parents, grow=gpar), list(hist), family="F0g"))
+                continue
+            if after_states != before[0]:
+                viol.append(Violation("lifecycle", "state-changed-without-request", f"adding an operator changed existing operator states {before[0]} -> {after_states}",
+                                      dict(parents=parents, grow=gpar), list(hist), family="F0g"))
+            else:
+                extra = [a - b for a, b in zip(after_counts, before[1])]
+                if any(x != 0 for k, x in enumerate(extra) if STATES[k] != P) or extra[STATES.index(P)] not in (0, 1):
+                    viol.append(Violation("lifecycle", "counts-changed-without-request", f"adding an operator changed the histogram {before[1]} -> {after_counts}",
+                                          dict(parents=parents, grow=gpar), list(hist), family="F0g"))
+        if len(hist) == depth:
+            return
+        for r in reqs:
+            p, ops = replay_history(parents, hist)
+            k0 = key_of(p, ops)
+            try:
+                ops[r[0]].transition(OS[r[1]])
+            except Exception:
+                continue      # refused requests do not lead to new states
+            rec(hist + [r])
+
+    rec([])
+    return dict(violations=viol, executions=execs)
+
+
 def stateless(parents, depth):
     """All request sequences of exactly <= depth requests, no merging."""
     n = len(parents)
